@@ -327,7 +327,10 @@ def oracle_step(case):
     # exact-arithmetic recipes (dyadic data, power-of-two parameters): the documented equations evaluate without rounding in any
     # order of operations, so the comparison is bit for bit there
     exact = bool(case["recipe"].get("exact"))
-    fld = G.states_close(doc, post, rtol=0.0 if exact else RTOL, skip=("fpr",) if exact else ())
+    # GenericSubproblemSolver minimises numerically (scipy BFGS with its default tolerances): its x-update equals the
+    # documented argmin only to the inner solver's accuracy - same rule as in the correspondence tie (rt = 1e-5 there)
+    generic = case["recipe"].get("alg") == "admm" and case["recipe"].get("solver") == "generic"
+    fld = G.states_close(doc, post, rtol=0.0 if exact else (1e-5 if generic else RTOL), skip=("fpr",) if exact else ())
     if fld is None:
         return None
     return {"class": type(b.solver).__name__, "recipe": case["recipe"], "pre_state": pre_now, "field": fld,
